@@ -482,14 +482,30 @@ pub fn run_c11(tier: Tier) -> i32 {
         let n = for_family(f.as_ref(), &visit_static);
         fams.push(json!({"family": f.name(), "legal_members": n, "secs": t0.elapsed().as_secs_f64()}));
     }
-    if tier == Tier::Quick {
-        // game-stage clauses are crossed by these signatures; quick runs take a sub-lattice
-        for sig in ["KQkq", "KQkr", "KBNk", "KQQk", "KQBNkq", "KQBkqn"] {
+    {
+        // clause coverage of the game-stage rule: it depends on (white has a queen, black has a queen,
+        // white has <= 1 minor, black has <= 1 minor) — one material signature per combination of
+        // {no queen, queen} x {0, 2 minors} for each side (16 signatures, 2 to 8 men), sub-lattices
+        let mut sigs: Vec<String> = Vec::new();
+        for wq in ["", "Q"] {
+            for wm in ["", "BN"] {
+                for bq in ["", "q"] {
+                    for bm in ["", "bn"] {
+                        sigs.push(format!("K{}{}k{}{}", wq, wm, bq, bm));
+                    }
+                }
+            }
+        }
+        for extra in ["KQkr", "KQQk", "KQBkqn", "KRBNkq", "KQNkqbn"] {
+            sigs.push(extra.to_string());
+        }
+        for sig in sigs.iter().filter(|s| s.len() > 3) {
             let t0 = Instant::now();
             let fam = Material::new(sig);
-            let stride = if sig.len() > 4 { 1_000_003 } else { 101 };
+            let target: u64 = if tier == Tier::Quick { 40_000 } else { 1_500_000 };
+            let stride = (fam.len() / target).max(1) | 1;
             let n = for_family(&Strided(&fam, stride), &visit_static);
-            fams.push(json!({"family": format!("MAT:{} every {}th index", sig, stride), "legal_members": n, "secs": t0.elapsed().as_secs_f64()}));
+            fams.push(json!({"family": format!("MAT:{} every {}th index (game-stage clause coverage)", sig, stride), "legal_members": n, "secs": t0.elapsed().as_secs_f64()}));
         }
     }
     let castle = CastleFam { blockers: 6 };
